@@ -321,11 +321,18 @@ class ExprMixin:
         ib, ia, ir = f"(ditems {b})", f"(ditems {a})", f"(ditems {r.t})"
         # item-level facts (same library semantics, stated on items so that they trigger on item terms):
         # every item of b is an item of the result; every item of the result comes from b, or from a under a key b lacks
-        st.assume(f"(forall (({j} Int)) (! (=> (and (dict_wf {b}) (<= 0 {j}) (< {j} (seq.len {ib}))) (exists (({q} Int)) (and (<= 0 {q}) (< {q} (seq.len {ir})) "
-                  f"(= (pkey (seq.nth {ir} {q})) (pkey (seq.nth {ib} {j}))) (= (pval (seq.nth {ir} {q})) (pval (seq.nth {ib} {j})))))) :pattern ((seq.nth {ib} {j}))))")
+        # (the position in the result is a Skolem function of the position in b: an existential under the quantifier left
+        # `Properties.__call__/post@return` undecided in all three solvers at 90 s; with the function cvc5 decides it at once)
+        pos = self.declare_fun(fresh_name("mpos"), ["Int"], "Int")
+        qp = f"({pos} {j})"
+        st.assume(f"(forall (({j} Int)) (! (=> (and (dict_wf {b}) (<= 0 {j}) (< {j} (seq.len {ib}))) (and (<= 0 {qp}) (< {qp} (seq.len {ir})) "
+                  f"(= (pkey (seq.nth {ir} {qp})) (pkey (seq.nth {ib} {j}))) (= (pval (seq.nth {ir} {qp})) (pval (seq.nth {ib} {j}))))) :pattern ((seq.nth {ib} {j})) :pattern ({qp})))")
+        srcb = self.declare_fun(fresh_name("msrcb"), ["Int"], "Int")
+        srca = self.declare_fun(fresh_name("msrca"), ["Int"], "Int")
+        jb, ja = f"({srcb} {q})", f"({srca} {q})"
         st.assume(f"(forall (({q} Int)) (! (=> (and (dict_wf {a}) (dict_wf {b}) (<= 0 {q}) (< {q} (seq.len {ir}))) (or "
-                  f"(exists (({j} Int)) (and (<= 0 {j}) (< {j} (seq.len {ib})) (= (pkey (seq.nth {ir} {q})) (pkey (seq.nth {ib} {j}))) (= (pval (seq.nth {ir} {q})) (pval (seq.nth {ib} {j}))))) "
-                  f"(exists (({j} Int)) (and (<= 0 {j}) (< {j} (seq.len {ia})) (not (dhas {b} (pkey (seq.nth {ia} {j})))) (= (pkey (seq.nth {ir} {q})) (pkey (seq.nth {ia} {j}))) (= (pval (seq.nth {ir} {q})) (pval (seq.nth {ia} {j}))))))) :pattern ((seq.nth {ir} {q}))))")
+                  f"(and (<= 0 {jb}) (< {jb} (seq.len {ib})) (= (pkey (seq.nth {ir} {q})) (pkey (seq.nth {ib} {jb}))) (= (pval (seq.nth {ir} {q})) (pval (seq.nth {ib} {jb})))) "
+                  f"(and (<= 0 {ja}) (< {ja} (seq.len {ia})) (not (dhas {b} (pkey (seq.nth {ia} {ja})))) (= (pkey (seq.nth {ir} {q})) (pkey (seq.nth {ia} {ja}))) (= (pval (seq.nth {ir} {q})) (pval (seq.nth {ia} {ja})))))) :pattern ((seq.nth {ir} {q}))))")
         self.trusted_used.add("dict merge {**a, **b}: lookup prefers b, then a; size bounds; items of b carried over, every item from b or from a (library axiom)")
         return r.t
 
